@@ -261,6 +261,9 @@ ASSUME Emit => PrintT(ToJson([t |-> "universe", refs |-> [i \in U |-> [i |-> i, 
 (* producer -- of its MOST RECENT repetition (highest number) for a repeating one --, the empty text when there  *)
 (* is none yet ("it will be generated").  The spec keeps values opaque; these fields tell the driver what to     *)
 (* put on disk.                                                                                                   *)
+(* rep = "loop": the producer is the PLACEHOLDER of a DoWhile component (stage<st>.<name> stands for the most     *)
+(* recent iteration stage<st>.<last>#<name>); a component outside the loop that references it gets the working   *)
+(* directory / files / stdout of that latest iteration.                                                          *)
 MkR(st, name, kind, file, rp, last) == [st |-> st, name |-> name, kind |-> kind, file |-> file, rep |-> rp, last |-> last]
 MkF(st, name, kind, file) == MkR(st, name, kind, file, "no", 0)
 Mk(st, name, kind) == MkF(st, name, IF kind = "reff" THEN "ref" ELSE kind,
@@ -310,6 +313,13 @@ RefUStdout == << MkF(1, nA, "out", <<>>), MkF(0, nA, "out", <<>>), MkR(0, nQ, "o
                  MkR(0, nR0, "out", <<>>, "yes", 0), MkR(0, nR9, "out", <<>>, "yes", 9), MkR(0, nR10, "out", <<>>, "yes", 10),
                  MkR(1, nR100, "out", <<>>, "yes", 100), MkR(0, nRn, "out", <<>>, "yes", -1),
                  MkR(0, nR10, "ref", <<>>, "yes", 10), Mk(1, nA, "ref") >>
+nW == <<"W">>
+LoopU(N) == << MkR(0, nW, "ref", <<>>, "loop", N), MkR(0, nW, "ref", <<"out", ".", "txt">>, "loop", N),
+               MkR(0, nW, "out", <<"out", ".", "txt">>, "loop", N), MkR(0, nW, "out", <<>>, "loop", N),
+               Mk(1, nW, "ref"), Mk(0, nA, "ref"), Mk(1, nA, "out") >>
+RefULoop0 == LoopU(0)
+RefULoop1 == LoopU(1)
+RefULoop2 == LoopU(2)
 RefUSix == << Mk(1, nA, "ref"), Mk(0, nA, "ref"), Mk(1, nBA, "ref"), Mk(0, nBA, "ref"), Mk(1, nA, "out"), Mk(0, nA, "out") >>
 RefUWide == << Mk(1, nA, "ref"), Mk(0, nA, "ref"), Mk(1, nBA, "ref"), Mk(0, nBA, "ref"),
                Mk(1, nBdA, "ref"), Mk(0, nxA, "ref"), Mk(1, nxA, "ref"), Mk(1, nAB, "ref"), Mk(0, nA0, "ref"),
